@@ -78,6 +78,16 @@ CLAIMS = {
          "any number of cell/face types symbolic."),
    design='6 C18', technique='contract-based deductive verification over the clang AST with uninterpreted-function models of tinyxml2 and std::sto*, exceptions as outcomes, SMT',
    note=NOTE_COMMON + " tinyxml2 and std::stod/stoi are modelled, not verified."),
+ 'C09': dict(
+   text=("Slice of the property decided by contracts on the real code: the population book-keeping of cell_divider::run for any population and any "
+         "number of divisions in one call (size, survivors in order, mothers gone, daughter ids fresh and consecutive, id counter, position "
+         "indices), with remove_index<cell_ptr,unsigned> proved against its full functional contract by an inductive invariant; divide_cell "
+         "never lets an exception escape, returns nullopt on failure and on success the two daughters with half of the mother's target volume; "
+         "the plane and rotation kernels (edge/plane intersection, side of a face, quaternion normalisation and matrix, rotation to the xy "
+         "plane orthonormal and mapping the normal to +z, inverse mapping, round-trip lemma). Whether the daughters' surfaces are closed "
+         "manifolds on their side of the plane with volumes adding up is NOT decided here (listed as unverified)."),
+   design='6 C09', technique='contract-based deductive verification: own VC generator over the clang AST (loop invariants with quantified list facts, ghost allocation watermark, reachability covers) + SMT (E-matching) + sympy ideal membership; native replay of refuted obligations',
+   note=NOTE_COMMON + " OpenMP loop read sequentially. The geometric outcome of a division (closed daughters, volume split) is not under contract."),
  'C17': dict(
    text=("Slice of the property decided by contracts on the real code, i.e. everything after the std::regex front end has produced numbers: "
          "mesh_reader::get_cell_mesh is memory-safe for EVERY pair of vectors (arbitrary cell record of any length, arbitrary counters and point ids, "
